@@ -74,6 +74,8 @@ def _obj(spec):
         return np.array(vals, dtype=float)
     if form == "ndarray_u8":
         return np.array(vals, dtype=np.uint8)
+    if form == "ndarray_dt":
+        return np.array(vals, dtype=getattr(np, spec["dtype"]))
     if form == "list_bool":
         return [bool(v) for v in vals]
     if form == "list_float":
@@ -247,6 +249,32 @@ BAD_DATA = [
     {"form": "list", "vals": [1e-300]}, {"form": "list", "vals": [1.0000000000000002]}, {"form": "list", "vals": [255, 256]},
     {"form": "list", "vals": [2 ** 64]}, {"form": "list", "vals": [-0.0, 1, 2]},
 ]
+# integers that are 0 or 1 only modulo 256 (or modulo 2^16, 2^32, 2^64): a cast to uint8 before the 0/1 test would let them in
+WIDE = [256, 257, 512, 513, -255, -256, 65536, 65537, 2 ** 32, 2 ** 32 + 1, -2 ** 32 + 1, 2 ** 63 - 255, 255, 254, -1, 2]
+WIDE_DTYPES = {"uint16": (0, 2 ** 16 - 1), "int16": (-2 ** 15, 2 ** 15 - 1), "int32": (-2 ** 31, 2 ** 31 - 1),
+               "uint32": (0, 2 ** 32 - 1), "int64": (-2 ** 63, 2 ** 63 - 1), "uint64": (0, 2 ** 64 - 1)}
+
+
+def _wide_specs(rng, per_value):
+    """containers (list / tuple / ndarray of a wide integer dtype) holding one such integer, alone or among valid bits"""
+    out = []
+    for w in WIDE:
+        for _ in range(per_value):
+            n = rng.choice([1, 1, 2, 3, 5])
+            vals = [rng.randrange(2) for _ in range(n)]
+            vals[rng.randrange(n)] = w
+            form = rng.choice(["list", "tuple", "ndarray", "ndarray_dt"])
+            if form == "ndarray_dt":
+                fits = [d for d, (lo, hi) in WIDE_DTYPES.items() if all(lo <= x <= hi for x in vals)]
+                if not fits:
+                    form = "list"
+                else:
+                    out.append({"form": "ndarray_dt", "dtype": rng.choice(fits), "vals": vals})
+                    continue
+            out.append({"form": form, "vals": vals})
+    return out
+
+
 GOOD_SCALARS = [
     ({"form": "scalar", "vals": 0}, "0"), ({"form": "scalar", "vals": 1}, "1"), ({"form": "scalar", "vals": {"b": 1}}, "1"),
     ({"form": "scalar", "vals": {"b": 0}}, "0"), ({"form": "scalar", "vals": 1.0}, "1"), ({"form": "scalar", "vals": 0.0}, "0"),
@@ -298,6 +326,8 @@ def _rand_operand(rng, op):
         return rng.choice(cand), None, "err"
     if r < 0.92:
         cand = [s for s in BAD_DATA if s["form"] in ("list", "tuple") or (op == "add" and s["form"].startswith("ndarray"))]
+        if rng.random() < 0.3:
+            cand = [s for s in _wide_specs(rng, 1) if s["form"] in ("list", "tuple") or op == "add"]
         return rng.choice(cand), None, "err"
     t = rng.choice(TEXTS)
     return {"form": "text", "text": t}, None, "any"
@@ -362,6 +392,13 @@ def gen_cases(rng, tier):
         r, c = rng.randrange(1, 4), rng.randrange(0, 4)
         cases.append({"kind": "mk", "data": {"form": rng.choice(["list", "ndarray"]), "vals": [[rng.randrange(2) for _ in range(c)] for _ in range(r)]},
                       "expect": "err"})
+    # integers congruent to 0/1 modulo a power of 256, in wide dtypes: constructor and both orders of +
+    for spec in _wide_specs(rng, 2 if quick else 12):
+        cases.append({"kind": "mk", "data": spec, "expect": "err"})
+    for spec in _wide_specs(rng, 2 if quick else 12):
+        for op in (("add",) if spec["form"].startswith("ndarray") else ("add", "radd")):
+            cases.append({"kind": "prog", "init": _rand_bits(rng, rng.randrange(0, 7)),
+                          "steps": [{"op": op, "operand": spec, "obits": None, "expect": "err", "keep": False}]})
     for t in TEXTS:
         cases.append({"kind": "mk", "data": {"form": "text", "text": t}, "expect": "any"})
     for t in OVERFLOW_TEXTS:
